@@ -73,6 +73,9 @@ struct World {
   std::map<std::pair<uint64_t, int>, std::deque<size_t>> write_cuts;  // 0 = EAGAIN once
   std::function<std::deque<size_t>(uint64_t stream, int side)> read_cut_source;  // lazily supplies cuts for new streams
   size_t default_read_cut = 0;                                        // applied when the list is empty (0 = none)
+  // (stream id, side) -> windows [from_ns, until_ns) during which that side cannot write (EAGAIN, not writable); use stall_writes()
+  std::map<std::pair<uint64_t, int>, std::vector<std::pair<uint64_t, uint64_t>>> write_stalls;
+  void stall_writes(uint64_t stream, int side, uint64_t from_ns, uint64_t until_ns);
   std::map<std::pair<uint64_t, int>, std::deque<size_t>> deliver_chunks;   // bytes written by (stream, side) arrive in pieces of these sizes, 1 ms apart
 
   // limits
